@@ -28,6 +28,14 @@
 namespace bloc
 {
 
+const Type& ROUNDExpression::type(Context &ctx) const
+{
+  const Type& t0 = _args[0]->type(ctx);
+  if (t0 == Type::IMAGINARY)
+    return Value::type_imaginary;
+  return Value::type_numeric;
+}
+
 Value& ROUNDExpression::value(Context & ctx) const
 {
   Value& val = _args[0]->value(ctx);
